@@ -439,10 +439,13 @@ def replay(f, ctx):
                 elif sched.canon(r_[1]) != base[name]:
                     ctx.fail('%s_wrong_result' % nm, c)
             return
-        if c.get('cold'):
+        if c.get('cold') is True:
             rew.rewind()
+        else:
+            # the sweep ran A (with an earlier injection) right before this one: reproduce that process state
+            make_call(a5, cat[c['A']])()
         inject_pair(a5, sched, inj, cat, c['A'], c['B'], c['mode'], c['k'], ctx, base, cold=bool(c.get('cold')))
-        if c.get('cold'):
+        if c.get('cold') is True:
             for n2 in (c['A'], c['B']):
                 if sched.canon(make_call(a5, cat[n2])()) != base[n2]:
                     ctx.fail('wrong_result_after_cold_schedule', c)
